@@ -52,15 +52,25 @@ def pytest_main():
     return int(pytest.main(sys.argv[1:]))
 
 
+def gen_text(rng):
+    """Content of a text result: mostly the fixed shapes above, otherwise generated lines with any line ending,
+    blank lines inside and 0-4 line ends at the end."""
+    if rng.random() < 0.6:
+        return rng.choice(TEXTS)
+    from vt.gens import texts as T
+    lines = [T.line(rng, k) for k in range(rng.choice([0, 1, 2, 5]))]
+    return T.to_text(rng, lines) + rng.choice(['', '', '\n', '\n\n', '\n\n\n', '\r\n\r\n', '\n \n'])
+
+
 def gen_step(rng, i):
     a = ['string', 'textfile', 'textfiles', 'binary', 'df_parquet', 'df_csv', 'ondisk'][rng.randrange(7)]
     step = {'i': i, 'assert': a, 'kind': rng.choice(KINDS), 'ref_state': rng.choice(['match', 'match', 'differ', 'missing']),
             'ref': 'ref%d.%s' % (i, {'string': 'txt', 'textfile': 'txt', 'textfiles': 'txt', 'binary': 'bin', 'df_parquet': 'parquet',
                                      'df_csv': 'csv', 'ondisk': 'parquet'}[a])}
     if a in ('string', 'textfile'):
-        step['actual'] = rng.choice(TEXTS) + ('#%d\n' % rng.randrange(1000) if rng.random() < 0.5 else '')
+        step['actual'] = gen_text(rng) if rng.random() < 0.5 else rng.choice(TEXTS) + '#%d\n' % rng.randrange(1000)
     elif a == 'textfiles':
-        step['actuals'] = [rng.choice(TEXTS), rng.choice(TEXTS) + 'tail\n']
+        step['actuals'] = [gen_text(rng), rng.choice(TEXTS) + 'tail\n']
     elif a == 'binary':
         step['actual_hex'] = bytes(rng.randrange(256) for _ in range(rng.choice([0, 1, 16, 200]))).hex()
     else:
